@@ -28,7 +28,7 @@ RESERVED = {"utility", "_period", "xp"}
 def plan(tier, seed):
     n = 45 if tier == "quick" else 500
     return [{"index": i, "seed": [seed, 101, i], "cfg": "quick" if tier == "quick" else "thorough",
-             "cfg_over": {"max_T": 3, "max_cells": 15000}, "force": {"filters": i % 3 != 2, "excluded_states": i % 3 == 0},
+             "cfg_over": {"max_T": 3, "max_cells": 15000}, "force": {"filters": i % 3 != 2, "excluded_states": i % 3 == 0, "two_stochastic": i % 3 == 1},
              "env": {"VERIF_X64": "1"}} for i in range(n)]
 
 
